@@ -185,6 +185,17 @@ func TestVerifC02(t *testing.T) {
 		stream = append(append(stream, ref.B32(randScalar(rng))...), rng.Bytes(64)...)
 		cases = append(cases, &c02case{d: d, priv: ref.B32(d), e: rng.Bytes(32), stream: stream, chunk: 0, plan: "random", label: "long-rejection-run"})
 	}
+	// SHORT ENCODINGS of the private key (leading zero bytes stripped, 1..31 bytes): the signer accepts them; the
+	// nonce is still drawn in full 32-byte units and the pair is the standard's for the VALUE d
+	for i := 0; i < hk.N(40, 300); i++ {
+		l := 1 + i%31
+		db := append([]byte{1 + byte(rng.Intn(255))}, rng.Bytes(l-1)...)
+		d := new(big.Int).SetBytes(db)
+		if !ref.ValidPriv(d) {
+			continue
+		}
+		cases = append(cases, &c02case{d: d, priv: db, e: rng.Bytes(32), stream: rng.Bytes(32 * 6), chunk: chunks[rng.Intn(len(chunks))], plan: "random", label: fmt.Sprintf("short-key-encoding")})
+	}
 	// RELATIONS BETWEEN ARGUMENTS: the nonce candidate equals the private key, its negation, the digest, a
 	// neighbour of the key ...; the digest equals the key. The standard has no rule about any of them.
 	for i := 0; i < hk.N(12, 60); i++ {
